@@ -113,7 +113,11 @@ StResult(ev) ==     \* <<verdicts, next model>>
                      ELSE IF o.op \in {"CopyCtor", "Assign", "AssignT", "Ctor"} THEN "P_DeepCopy"
                      ELSE IF o.op \in {"FillView", "CopyPixels"} THEN "P_WriteThroughView"
                      ELSE "P_ImageState"
-    IN <<   (IF ev.ret # r THEN {V(retClause, "None", o.op, [i |-> ev.i, op |-> o, expected |-> r, got |-> ev.ret])} ELSE {})
+        \* recreate passes the row alignment on to the held image: the layout is that of the concrete image recreated with the same arguments
+        alignBad == o.op = "Recreate" /\ o.w * o.h > 0 /\ ev.imgs[o.a].live /\ ev.imgs[o.a].rb # P_RowBytes(types[ev.imgs[o.a].tag], o.w, o.x)
+    IN <<   (IF alignBad THEN {V("P_RecreateLikeConcrete", "None", o.op, [i |-> ev.i, op |-> o, row_bytes |-> ev.imgs[o.a].rb,
+                                                                     expected |-> P_RowBytes(types[ev.imgs[o.a].tag], o.w, o.x)])} ELSE {})
+       \cup (IF ev.ret # r THEN {V(retClause, "None", o.op, [i |-> ev.i, op |-> o, expected |-> r, got |-> ev.ret])} ELSE {})
        \cup (IF ib # {} THEN {V(imgClause, "None", o.op, [i |-> ev.i, op |-> o, vars |-> ib, expected |-> ob.imgs, got |-> ev.imgs])} ELSE {})
        \cup (IF vb # {} THEN {V(IF o.op \in {"CopyView", "AssignView", "ViewOf", "SubView"} THEN "P_ShallowView" ELSE "P_ViewState", "None", o.op,
                                 [i |-> ev.i, op |-> o, vars |-> vb, expected |-> ob.views, got |-> ev.views])} ELSE {}),
